@@ -54,6 +54,10 @@ var dcFieldSrc = map[string]string{
 	"genericNamedArg": "GN ZPair[string, Level]",
 	// a defined map whose name sorts after the root type's: it is first met as a dependency of the root type
 	"definedMapLate": "ZM ZMap",
+	// a dependency with two struct fields of its own (its dependencies outnumber the root type's visited ones)
+	"structWide": "W Wide",
+	// a struct by value whose first non-scalar field is a scalar-only struct, followed by containers
+	"structMixed": "MX Mixed",
 }
 
 var dcDeps = map[string]string{
@@ -65,6 +69,8 @@ var dcDeps = map[string]string{
 	"mapOfDefined":    "// MyInt is a defined scalar.\ntype MyInt int\n",
 	"genericInst":     "// Gen is a generic struct.\ntype Gen[X any] struct {\n\tV X\n\tL []int\n}\n",
 	"untaggedDep":     "// Untagged is a dependency without its own tag.\ntype Untagged struct {\n\tL []int\n}\n",
+	"structWide":      "// Wide has two struct fields of its own.\ntype Wide struct {\n\tA WA\n\tB WB\n}\n\n// WA is the first.\ntype WA struct {\n\tL []int\n}\n\n// WB is the second.\ntype WB struct {\n\tM map[string]int\n}\n",
+	"structMixed":     "// Mixed starts with scalars and a scalar-only struct; containers follow.\ntype Mixed struct {\n\tAuthor string\n\tOrigin Point\n\tTags   []string\n\tAttrs  map[string]string\n}\n\n// Point has scalars only.\ntype Point struct {\n\tX, Y int\n}\n",
 	"definedMapLate":  "// ZMap is a defined map; its name sorts after the root type's.\ntype ZMap map[string]int\n",
 	"genericNamedArg": "// ZPair is generic; its name sorts after the root type's, so it is first met as a dependency.\ntype ZPair[K comparable, V any] struct {\n\tKey K\n\tVal V\n\tM   map[string]int\n}\n\n// Level is a defined scalar used as a type argument.\ntype Level int\n",
 }
